@@ -99,7 +99,7 @@ package stream
 //@   props C01 C19
 //@   assigns wrCount, wrLast, ctxClock, afCtx, afCount
 //@   ensures written: err == nil ==> wrCount == old(wrCount) + 1 && wrLast == old(str(data))
-//@   ensures at_most_one: wrCount <= old(wrCount) + 1
+//@   ensures at_most_one: wrCount <= old(wrCount) + 1 && wrCount >= old(wrCount)
 
 //@ func (*Stream).readWithContext
 //@   props C01 C19
@@ -127,6 +127,8 @@ package stream
 //@   ensures sealed_payload: err == nil && sealing ==> (ctr0 == 0 ==> forall i :: 0 <= i && i < 16 ==> wrLast[5+i] == s.encryptIV[i]) && len(sealOut) == len(data) + 16 && (forall i :: 0 <= i && i < len(data) + 16 ==> wrLast[5+ivlen+i] == sealOut[i])
 //@   ensures sealed_once: sealing && err == nil ==> sealCount == old(sealCount) + 1 && sealObj == s.gcm && sealPT == old(str(data)) && s.encryptCounter == ctr0 + 1
 //@   ensures plain_noseal: !sealing ==> sealCount == old(sealCount) && s.encryptCounter == ctr0
+//@   ensures write_implies_seal: [C09 C12] sealing && wrCount > old(wrCount) ==> sealCount == old(sealCount) + 1
+//@   ensures monotone: wrCount >= old(wrCount) && sealCount >= old(sealCount) && sealCount <= old(sealCount) + 1
 //@   ensures aad_binds_header: [C12 C02] err == nil && sealing ==> len(sealAAD) >= 5 && (forall j :: 0 <= j && j < 5 ==> sealAAD[len(sealAAD) - 5 + j] == wrLast[j]) && len(sealAAD) == ite(old(s.finishedSendAAD), 5, 69)
 //@   ensures aad_digests: [C12 C04] err == nil && sealing && !old(s.finishedSendAAD) ==> forall i :: 0 <= i && i < 32 ==> sealAAD[i] == s.finalSendDigest[i] && sealAAD[32+i] == s.finalRecvDigest[i]
 //@   ensures nonce: [C12] err == nil && sealing ==> len(sealNonce) == 16 && (forall i :: 4 <= i && i < 16 ==> sealNonce[i] == s.encryptIV[i]) && be32(sealNonce, 0) == (be32(s.encryptIV, 0) + ctr0) % 4294967296
@@ -200,6 +202,8 @@ package stream
 //@   ensures sealed: [C01 C12 C09] err == nil && sealing ==> sealCount == old(sealCount) + 1 && sealPT == old(str(data)) && sealObj == s.gcm
 //@   ensures plain_noseal: [C09] !sealing ==> sealCount == old(sealCount)
 //@   ensures at_most_one: wrCount <= old(wrCount) + 1
+//@   ensures monotone: wrCount >= old(wrCount) && sealCount >= old(sealCount)
+//@   ensures all_sealed: [C09] sealing ==> wrCount - old(wrCount) <= sealCount - old(sealCount)
 //@   ensures wf_kept: digestsWF(s) && buffersSeparate(s)
 
 //@ func (*Stream).ReadFrame (s, ctx) (result, isEOM, err)
@@ -430,3 +434,7 @@ package stream
 //@   assigns s.encrypted
 //@   ensures on: enabled ==> result == (s.gcm != nil) && s.encrypted == (old(s.encrypted) || s.gcm != nil)
 //@   ensures off: !enabled ==> result && !s.encrypted
+
+//@ refine github.com/bbockelm/cedar/message.secretCrypto.CryptoForSecretIsNoop by (*github.com/bbockelm/cedar/stream.Stream).CryptoForSecretIsNoop coupling strmEncrypting == impl.encrypted && strmKeyed == (impl.gcm != nil)
+//@ refine github.com/bbockelm/cedar/message.secretCrypto.PrepareCryptoForSecret by (*github.com/bbockelm/cedar/stream.Stream).PrepareCryptoForSecret coupling strmEncrypting == impl.encrypted && strmKeyed == (impl.gcm != nil) && strmSaved == impl.cryptoBeforeSecret
+//@ refine github.com/bbockelm/cedar/message.secretCrypto.RestoreCryptoAfterSecret by (*github.com/bbockelm/cedar/stream.Stream).RestoreCryptoAfterSecret coupling strmEncrypting == impl.encrypted && strmKeyed == (impl.gcm != nil) && strmSaved == impl.cryptoBeforeSecret
